@@ -25,7 +25,7 @@ write handle dropped, at any point, also before the first notification) and "out
 the downlink's output channel dropped; later own writes then fail), each seen by the task either on its
 own or together with the next input (cfg.env_settle); all laws must hold unchanged afterwards.
 """
-import json, os, random
+import json, os, os, random
 from vlib import core
 from vlib import replay as rp
 
@@ -375,6 +375,9 @@ def run(tier, out):
     cases = generate(tier, wd, rng, stats)
     results = rp.run_cases("h_runtime", "dlstate", cases, wd, tag="dl", input_keys=INPUT_KEYS)
     st = judge(out, cases, results, wd, 1500 if tier == "quick" else 12000, rng)
+    # the agent's own view: hosted downlinks and join lanes driven by the real agent task (configuration E)
+    from checks import e_join
+    e_join.run_e(tier, out, os.path.join(wd, "ejoin"), prop="C08")
     core.log("[C08] replayed %d cases (%d inputs) on the real downlinks: conform=%d divergent=%d (known=%d drift=%d rejected=%d); "
              "P evaluated %d cases / %d events in %.1fs; client-vs-hosted pairs=%d mismatches=%d" % (
                  st["cases"], st["steps"], st["conform"], st["divergent"], st["known"], st["drift"], st["rejected"],
@@ -415,8 +418,11 @@ def run(tier, out):
 # ----------------------------------------------------------------------------- replay
 
 def replay(path, out):
-    wd = core.workdir(PROP + "_replay")
     obj = json.load(open(path))["replay"]
+    if obj.get("component") == "e_join":
+        from checks import e_join
+        return e_join.replay(path, out)
+    wd = core.workdir(PROP + "_replay")
     core.build_harness("h_runtime", "dlstate")
     pairs = [(obj["case"], None)]
     if obj.get("other_case"):
